@@ -645,6 +645,13 @@ def rule_at_most_one_yield(em, rep, rid):
                         rep.violation(rid, key, 'a unifier returns something that is not an iterator produced by a call', f.loc(n))
             continue
         cfg = em.cfg(f)
+        # ``return <iterator>`` in a generator function does not delegate: the generator just ends and the solutions
+        # of the returned iterator are never produced
+        for n in own_nodes_ordered(f.node):
+            if isinstance(n, ast.Return) and n.value is not None and not (isinstance(n.value, ast.Constant) and n.value.value is None):
+                rep.violation(rid, '%s:%s' % (f.qname, norm(n)), 'this unifier is a generator function: "return %s" ends it without '
+                              'producing the solutions of the returned value (the unification silently fails); it has to be '
+                              'iterated or delegated to with yield from' % norm(n.value)[:40], f.loc(n))
         fam_loops = set()
         for s in own_nodes(f.node):
             if isinstance(s, ast.For) and isinstance(s.iter, ast.Call):
